@@ -23,6 +23,9 @@ def main():
     src = f"/tmp/wt/{pid}.out"
     patch = f"{src}/patch{i}.diff"
     meta = json.load(open(f"{src}/meta{i}.json"))
+    srcid = pid
+    if len(pid) > 3:  # a worktree name such as C10a: the property is the first three characters
+        pid = pid[:3]
     demos = [f for f in glob.glob(f"{src}/demo{i}*") if not f.endswith(".json")]
     if not demos:
         print("no demo"); sys.exit(2)
@@ -36,10 +39,10 @@ def main():
     ran = []
     rec = {}
     try:
-        pkgdir = meta.get("demo_package_dir", "").replace(f"/tmp/wt/{pid}/", "").replace(f"/tmp/wt/{pid}", "").strip("/") or "."
+        pkgdir = meta.get("demo_package_dir", "").replace(f"/tmp/wt/{srcid}/", "").replace(f"/tmp/wt/{srcid}", "").strip("/") or "."
         demo_dst = os.path.join(wt, pkgdir, os.path.basename(demo))
         os.makedirs(os.path.dirname(demo_dst), exist_ok=True)
-        cmd = meta.get("demo_command", "").replace(f"/tmp/wt/{pid}.out", "@OUT@").replace(f"/tmp/wt/{pid}", wt).replace("@OUT@", src)
+        cmd = meta.get("demo_command", "").replace(f"/tmp/wt/{srcid}.out", "@OUT@").replace(f"/tmp/wt/{srcid}", wt).replace("@OUT@", src)
         cmd = cmd.replace("<module root>", wt)
         if "cd " not in cmd:
             cmd = f"cd {wt} && {cmd}"
@@ -92,7 +95,7 @@ def main():
             shutil.rmtree(co, ignore_errors=True)
     shutil.copy(patch, f"{dest}/patch.diff")
     shutil.copy(demo, f"{dest}/{os.path.basename(demo)}")
-    m = {"property": pid, "origin": "independent sub-agent given only the property text and a scratch worktree",
+    m = {"property": pid, "base_commit": subprocess.run("git -C /repo rev-parse --short HEAD", shell=True, capture_output=True, text=True).stdout.strip(), "origin": "independent sub-agent given only the property text and a scratch worktree",
          "summary": meta.get("summary"), "needs_to_manifest": meta.get("needs_to_manifest"),
          "files_changed": meta.get("files_changed"), "demo_file": os.path.basename(demo),
          "demo_package_dir": meta.get("demo_package_dir"), "demo_command": meta.get("demo_command"),
